@@ -26,8 +26,8 @@ func TestMain(m *testing.M) {
 
 // Cred describes a crafted capability map.
 type Cred struct {
-	User     string `json:"user"`  // right | wrong | absent | int | other
-	Token    string `json:"token"` // right | wrong | absent | int
+	User     string `json:"user"`   // right | wrong | absent | int | other
+	Token    string `json:"token"`  // right | wrong | absent | int
 	Forged   int    `json:"forged"` // 0: no __qi_auth_state entry; else the forged state value
 	ForgeInt bool   `json:"forge_int"`
 	Extra    int    `json:"extra"`
